@@ -32,7 +32,10 @@ type c09Case struct {
 
 const c09T = int64(1111111109)
 
-var c09Key = []byte("12345678901234567890")
+var c09Keys = [][]byte{[]byte("12345678901234567890"), []byte("0123456789"), []byte("1234567890123456789012345678901234567890123456789012345678901234")}
+
+// c09Key is the key of the comparison class being run (fixed within a class, rotated across classes).
+var c09Key = c09Keys[0]
 
 func silence(f func()) {
 	devnull, err := os.OpenFile("/dev/null", os.O_WRONLY, 0)
@@ -144,6 +147,7 @@ type c09Stats struct{ ct, cmp map[int32]bool }
 // nonInterference runs one comparison class: all d single-position-wrong codes must be
 // rejected with IDENTICAL traces (statement ids + comparison events with their leak value).
 func nonInterference(c c09Case, st *c09Stats) (obs, bad string, calls int) {
+	c09Key = c09Keys[(c.Digits+c.Algo+c.Skew)%len(c09Keys)]
 	if strings.HasPrefix(c.Entry, "wasm:") && !wasmRegistered {
 		silence(verifwasm.VerifRegister)
 		wasmRegistered = true
